@@ -88,6 +88,7 @@ theorem wellTagged_of_b {α : Type} {prov : α → Prov Unit} {c : Conn α} {l :
   | get _ _ _ => trivial
   | sclose _ _ => trivial
   | «end» => trivial
+  | evict _ _ => trivial
 
 def wellTaggedRunB {α : Type} (prov : α → Prov Unit) : Conn α → List (Label α) → Bool
   | _, [] => true
@@ -146,6 +147,35 @@ def reuse : List (Label Nat) :=
 example : wellTaggedRunB provReuse (init cfgW) reuse = false := by decide
 
 example : (runV provReuse (Mon.init true false) (traceOf1 () (init cfgW) reuse)).2.v10 = some (.route true .straggler) := by
+  decide
+
+/-! ### evictions -/
+
+/-- `demo` with the store evicting the first three entries of stream 1 before the first resume: the resume from
+`(1,1)` — entry 2 is gone — is answered 400; a later resume from `(1,2)` still gets the rest -/
+def demoP : List (Label Nat) :=
+  [ .post [7] false .v1125 none, .write (.notif 100) (some 7) false, .cut 0, .write (.notif 101) (some 7) false,
+    .evict 1 3,
+    .get (.ok 1 1) .v1125 none,
+    .write (.resp 7 200) (some 7) false,
+    .get (.ok 1 2) .v1125 none ]
+
+example : ObsScopeRun (init cfgW) demoP := obsScopeRun_of_b _ _ (by decide)
+example : ((run (init cfgW) demoP).exs.map (fun e => (e.kind, e.out))) =
+    [ (.sse, [.prime 1 0, .message (some (1, 1)) ⟨.notif 100, some 7⟩]),
+      (.status 400, []),
+      (.sse, [.message (some (1, 3)) ⟨.resp 7 200, some 7⟩]) ] := by decide
+
+/-- the monitor is told about the eviction (record 4) and accepts the error and the later exact suffix … -/
+example : (runV provDemo (Mon.init true false) (traceOf1 () (init cfgW) demoP)).2.v08 = none :=
+  monitor_accepts_model_C08 cfgW () provDemo demoP (obsScopeRun_of_b _ _ (by decide))
+
+/-- … but had the store evicted those entries in `demo` (where the resume is answered with a stream), it reports the
+silent skip -/
+def addPurge (o : Obs Unit Nat) : Obs Unit Nat := { o with purges := [((), 1, 3)] }
+
+example : (runV provDemo (Mon.init true false) (tamperAt 3 addPurge (traceOf1 () (init cfgW) demo))).2.v08 =
+    some .purgedNotReported := by
   decide
 
 end Resume
